@@ -87,6 +87,11 @@ SHAPES = [  # strategy-directed shapes: each strategy extractor and its near mis
     lambda r: b"?" + lit(r, 0, 2) + b"." + lit(r, 0, 2, b"ab"),    # required extension
     lambda r: b"**/" + lit(r, 0, 2) + b"?" + lit(r, 0, 1),   # basename tokens, not literal
     lambda r: lit(r, 1, 2) + b"/**/" + lit(r, 1, 2),
+    lambda r: lit(r, 1, 2, b"abA.-") + b"/*",                  # trailing * as a whole component
+    lambda r: lit(r, 1, 2, b"abA.-") + b"/" + lit(r, 1, 2, b"abA.-") + b"/*",
+    lambda r: b"**/" + lit(r, 1, 2, b"abA.-") + b"/*",
+    lambda r: lit(r, 1, 2, b"abA.-") + b"/*" + lit(r, 1, 1, b"ab."),
+    lambda r: b"*/" + lit(r, 1, 2, b"abA.-"),
     lambda r: b"**",
     lambda r: b"**/",
     lambda r: b"*/",
@@ -114,6 +119,8 @@ def gen_opts(rng):
     n = rng.randint(0, 15)
     if rng.random() < 0.5:
         n |= 4                              # backslash_escape is the unix default
+    if rng.random() < 0.3:
+        n = (n | 2) & ~1                    # literal_separator on, case sensitive: the gitignore configuration
     return n
 
 
@@ -127,6 +134,11 @@ def gen_long_path(rng):
     return bytes(rng.randint(0, 255) for _ in range(rng.randint(1, 10)))
 
 
+# paths with two and more components below a literal prefix (a trailing `*` must not cross them when separators
+# are literal), always appended to the enumerated paths
+DEEP_PATHS = [b"a/b/c", b"a/b/c/d", b"a/a/b/c", b"ab/a/b", b"ab/a/b/c", b"b/a/b/c", b"a/b/a/b", b"a.b/a/b.a", b"A/a/b/c.a",
+              b"a/b/c/", b"-/a/b", b"a-/b/a/b"]
+
 CORPUS = [  # (opts, glob): hand-written corner cases, run first
     (4, b"foo."), (4, b"*."), (4, b"**/a."), (4, b"[a]b."), (4, b"**/.."), (4, b"**/."), (4, b"*.a"), (6, b"*.a"),
     (4, b"**/*.a"), (6, b"**/*.a"), (4, b"a/**"), (4, b"**/a/b"), (4, b"a/**/b"), (4, b"**/**/a"), (4, b"a/**/**/b"),
@@ -138,6 +150,8 @@ CORPUS = [  # (opts, glob): hand-written corner cases, run first
     (4, b"\\"), (0, b"\\"), (0, b"a\\b"), (4, b"a\\b"), (4, b"\\*\\?"), (4, b"a\\/**"), (4, b"\\/**/a"), (5, b"A.B"), (5, b"*.A"),
     (4, b"?"), (6, b"?"), (6, b"*"), (6, b"a/*"), (6, b"*/a"), (4, b"*/a"), (4, b"/**/a"), (4, b"**/"), (4, b"/"), (4, b"a/"),
     (4, b"*/"), (4, b"**/*/"), (4, b"**//a"), (4, b"a//**"), (4, b"***"), (4, b"***/a"), (4, b"a/***"), (4, b"*.."), (4, b"*.a."),
+    (6, b"ab/*"), (6, b"a/b/*"), (6, b"/a/*"), (6, b"**/a/*"), (6, b"a/*/*"), (6, b"a/?"), (6, b"a/*b"), (6, b"a*/*"), (6, b"a/**/*"),
+    (6, b"a/b*"), (6, b"*/*"), (6, b"a/[ab]*"), (7, b"a/*"), (14, b"a/*"), (6, b"a.b/*"),
     (4, b"*.a/b"), (4, b"**/a*"), (6, b"**/a*"), (6, b"**/a?b"), (6, b"**/?"), (4, b"a,b"), (4, b"{a,b},c"), (4, b"-"), (4, b"**/-"),
 ]
 
@@ -166,22 +180,53 @@ def bitsval(v):
     return v if isinstance(v, bytes) else b""
 
 
-def first_diff(a, b, n):
+def first_diff(a, b, n, paths=None):
+    """first differing path; a well-formed relative path (no empty component) is preferred as the witness"""
+    if a == b:
+        return None
     ua, ub = unpack(a, n), unpack(b, n)
+    first = None
     for i in range(n):
         if ua[i] != ub[i]:
-            return i, ua[i], ub[i]
-    return None
+            if paths is None or clean(paths[i]):
+                return i, ua[i], ub[i]
+            if first is None:
+                first = (i, ua[i], ub[i])
+    return first
 
 
 _seen = {}
+_pending = []     # correspondence-only reports (no failing input): emitted only when no concrete violation was found
 
 
 def viol(ctx, what, rep, nfi=False):
-    """at most 3 replays per kind of disagreement (a real defect shows on thousands of paths)"""
+    """at most 3 replays per kind of disagreement (a real defect shows on thousands of paths); the message names
+    the witness (options, glob, path).  Reports without a failing input are held back until the end of the run and
+    dropped when the same run produced a concrete violation (the concrete one is the better report)."""
     _seen[what] = _seen.get(what, 0) + 1
-    if _seen[what] <= 3:
-        ctx.violation(what, rep, nfi=nfi)
+    if _seen[what] > 3:
+        return
+    wit = ""
+    if "glob" in rep:
+        wit = " [opts=%s glob=%r%s]" % (rep.get("opts"), rep.get("glob"),
+                                        (" path=%r" % rep["path"]) if "path" in rep else "")
+    elif "globs" in rep:
+        wit = " [globs=%r%s]" % (rep["globs"], (" path=%r" % rep["path"]) if "path" in rep else "")
+    if nfi:
+        _pending.append((what + wit, rep))
+    else:
+        ctx.violation(what + wit, rep, nfi=False)
+
+
+def flush_pending(ctx):
+    if not [v for v in ctx.violations if not v[1]]:
+        for what, rep in _pending:
+            ctx.violation(what, rep, nfi=True)
+    del _pending[:]
+
+
+def clean(p):
+    return p != b"" and b"//" not in p and not p.startswith(b"/") and not p.endswith(b"/")
 
 
 def bad(o):
@@ -249,24 +294,24 @@ def check_glob(ctx, cases, L, extras):
             i, x, y = d
             return dict(rep, path=paths[i].decode("latin1"), path_hex=paths[i].hex(), first=x, second=y)
         # the property on the code itself: set (strategies) = matcher (regex), for every path
-        d = first_diff(c_set, c_re, n) or first_diff(c_setm, c_re, n)
+        d = first_diff(c_set, c_re, n, paths) or first_diff(c_setm, c_re, n, paths)
         if d:
             viol(ctx, "GlobSet of one glob answers differently from the glob's own matcher (strategy != regex)",
                           where(d))
         # link 2: model vs code
-        d = first_diff(m_re, c_re, n)
+        d = first_diff(m_re, c_re, n, paths)
         if d:
             od = oracle is not None and first_diff(oracle, c_re, n) is None
             viol(ctx, "tmatch (meaning of the emitted regex) differs from GlobMatcher::is_match "
                           "(theorem strategy_eq_regex no longer describes the code)", where(d), nfi=od)
-        d = first_diff(m_st, c_set, n)
+        d = first_diff(m_st, c_set, n, paths)
         if d:
             viol(ctx, "model strategy answer differs from GlobSet::is_match of the one-glob set", where(d),
                           nfi=first_diff(c_set, c_re, n) is None)
         # the documented syntax: independent oracle vs code
         if oracle is not None:
             ctx.cov["oracle_globs"] = ctx.cov.get("oracle_globs", 0) + 1
-            d = first_diff(oracle, c_re, n)
+            d = first_diff(oracle, c_re, n, paths)
             if d:
                 viol(ctx, "glob does not mean what the documented syntax says (independent matcher disagrees "
                               "with GlobMatcher::is_match)", where(d))
@@ -293,26 +338,25 @@ def check_set(ctx, cases, L, extras):
             continue
         c_m, c_is, c_f = cv[1], bitsval(cv[2]), cv[3]
         m_m, m_is = mv[1], bitsval(mv[2])
-        multi = 0
-        for i in range(n):
-            cm, cf, mm = list(c_m[i]), list(c_f[i]), list(m_m[i])
-            if len(cf) > 1:
-                multi += 1
-            w = dict(rep, path=paths[i].decode("latin1"), path_hex=paths[i].hex(), set_matches=cm, member_matches=cf,
-                     model=mm)
-            if cm != cf:
-                viol(ctx, "GlobSet::matches is not the ascending list of the individually matching globs", w)
-                break
-            if mm != cm:
+        multi = sum(1 for i in range(n) if len(c_f[i]) > 1)
+        order = [i for i in range(n) if clean(paths[i])] + [i for i in range(n) if not clean(paths[i])]
+
+        def w_at(i):
+            return dict(rep, path=paths[i].decode("latin1"), path_hex=paths[i].hex(), set_matches=list(c_m[i]),
+                        member_matches=list(c_f[i]), model=list(m_m[i]))
+        # the property's own statement on the code: set = members (well-formed paths first as witnesses)
+        i = next((i for i in order if list(c_m[i]) != list(c_f[i])), None)
+        if i is not None:
+            viol(ctx, "GlobSet::matches is not the ascending list of the individually matching globs", w_at(i))
+        else:
+            i = next((i for i in order if list(m_m[i]) != list(c_m[i])), None)
+            if i is not None:
                 viol(ctx, "model set_matches differs from GlobSet::matches (theorem set_eq_members no longer "
-                              "describes the code)", w, nfi=True)
-                break
+                          "describes the code)", w_at(i), nfi=True)
         ci = unpack(c_is, n)
-        for i in range(n):
-            if ci[i] != (1 if len(c_f[i]) else 0):
-                viol(ctx, "GlobSet::is_match differs from 'some member glob matches'",
-                              dict(rep, path=paths[i].decode("latin1"), path_hex=paths[i].hex()))
-                break
+        i = next((i for i in order if ci[i] != (1 if len(c_f[i]) else 0)), None)
+        if i is not None:
+            viol(ctx, "GlobSet::is_match differs from 'some member glob matches'", w_at(i))
         if first_diff(m_is, c_is, n):
             viol(ctx, "model set_is_match differs from GlobSet::is_match", rep, nfi=True)
         ctx.note_case(line, multi > 0)
@@ -354,7 +398,7 @@ def run(ctx):
     cases += [(gen_opts(rng), gen_glob(rng)) for _ in range(ctx.count(3000))]
     check_parse(ctx, cases)
     # --- 1202: corpus on every option set, then generated
-    extras = [gen_long_path(rng) for _ in range(40)]
+    extras = DEEP_PATHS + [gen_long_path(rng) for _ in range(40)]
     corpus = [(o2, g) for o, g in CORPUS for o2 in sorted({o, o ^ 2, o | 1, o ^ 8})]
     check_glob(ctx, corpus, 4, extras)
     gen = [(gen_opts(rng), gen_glob(rng)) for _ in range(ctx.count(900))]
@@ -366,12 +410,13 @@ def run(ctx):
         gs = []
         while len(gs) < k:
             g = rng.choice(SHAPES)(rng) if rng.random() < 0.7 else gen_glob(rng)
-            o = gen_opts(rng) if rng.random() < 0.4 else rng.choice([4, 6])
+            o = gen_opts(rng) if rng.random() < 0.4 else rng.choice([4, 6, 6])
             gs.append((o, g))
             if rng.random() < 0.25:
                 gs.append(rng.choice(gs))          # duplicates: the same literal registered twice
         sets.append(gs)
     check_set(ctx, sets, 4, extras)
+    flush_pending(ctx)
     ctx.assumptions += [
         "regex-automata implements the meaning tmatch gives to the regex text globset emits (compared on every "
         "generated glob and every enumerated path)",
@@ -391,3 +436,4 @@ def replay(ctx, data):
         check_set(ctx, [[(o, g.encode("latin1")) for o, g in r["globs"]]], r["L"], [bytes.fromhex(x) for x in r["extras"]])
     elif k == "cli-d3":
         d3_replay(ctx)
+    flush_pending(ctx)
